@@ -7,6 +7,7 @@ import LyModel.Valid.LemmasNpCont
 import LyModel.Valid.LemmasCaseStable
 import LyModel.Valid.LemmasNpValidate
 import LyModel.Valid.LemmasCaseExact
+import LyModel.Valid.LemmasCaseGood
 /-!
 # C07 — validation is an idempotent normalisation whose reported changes are exact
 
@@ -170,24 +171,29 @@ example :
 
 /-- **`validate_idempotent` for schemas WITH `choice` / `case`** (any nesting, default cases, together with defaults, leaf-list
 defaults, containers and lists), in the repaired variants of F180 (`lyd_new_implicit` completes the case of THIS choice) and
-F188 (`lyd_validate_autodel_case_dflt` looks at every enclosing case), for every option set and EVERY tree that follows the
-schema, whatever flags `LYD_NEW` / `LYD_DEFAULT` its nodes carry: validating the result of a validation returns the same tree and
-an empty change set.  Hypotheses about the schema, all decidable (`lookupOk_of_B`, `caseWf_of_B`, `noNpContInCase_of_B`) and true
-of every parsed schema of the class: schema ids are unique (`KidsLookupOk`); on every data level the children of choices are
-cases, the data nodes have different ids and the cases around a node in the flat table are the ones on its path in the schema
-tree (`CaseWf`); and **no non-presence container is a data member of a case** (`NoNpContInCase`) — without the last one the
-statement is false, also in the C code (`validate_idempotent_choice_fails`, finding F189).  Stated for the model's
-continue-after-error semantics, so the first validation need not succeed (two cases with data: `DupCase` is logged, both stay).
-The proof: a validated tree is *stable* (`StableTop`: nothing new; `lyd_new_implicit` has nothing to do on any level,
-`implDoneX`; no default node is the leftover of a dead case, `NV`; non-presence container flags final), and every phase is the
-identity on a stable tree. -/
+F188 (`lyd_validate_autodel_case_dflt` looks at every enclosing case), for every option set: validating the result of a
+validation returns the same tree and an empty change set — for EVERY tree that follows the schema, whatever flags `LYD_NEW` /
+`LYD_DEFAULT` its nodes carry, when **no non-presence container is a data member of a case** (`NoNpContInCase`); and for every
+schema of the class when the tree satisfies the non-presence container invariant (`npInvL`, kept by the edits of a history and
+by validation: `np_cont_dflt`, `np_cont_dflt_validate`) and **no new node is default-flagged** (`newExplL`: no empty non-presence
+container was just created with `lyd_new_inner`).  Without either the statement is false, also in the C code
+(`validate_idempotent_choice_fails`, finding F189).
+Hypotheses about the schema, all decidable (`lookupOk_of_B`, `caseWf_of_B`, `noNpContInCase_of_B`) and true of every parsed
+schema of the class: schema ids are unique (`KidsLookupOk`); on every data level the children of choices are cases, the data
+nodes have different ids and the cases around a node in the flat table are the ones on its path in the schema tree (`CaseWf`).
+Stated for the model's continue-after-error semantics, so the first validation need not succeed (two cases with data: `DupCase`
+is logged, both stay).  The proof: a validated tree is *stable* (`StableTop`: nothing new; `lyd_new_implicit` has nothing to do on
+any level, `implDoneX`; no default node is the leftover of a dead case, `NV`; non-presence container flags final), and every phase
+is the identity on a stable tree.  The two alternatives are what makes `NV` survive `lyd_validate_final_r`: either the containers
+whose flag it sets are in no case, or — the tree before it still satisfies the invariant (`prefinal_good`: an explicit
+container keeps an explicit child through `lyd_validate_cases`, because a new node is never removed there) — it sets none. -/
 theorem validate_idempotent_choice (X : SchemaX) (o : VOpts) (t : List DNode)
     (hq1 : X.q.implicitInnerCase = false) (hq2 : X.q.autodelDirectCase = false)
-    (hl : KidsLookupOk X) (hw : CaseWf X) (hnp : NoNpContInCase X)
+    (hl : KidsLookupOk X) (hw : CaseWf X) (hnp : NoNpContInCase X ∨ (npInvL X.base t ∧ newExplL t))
     (hp : placedCL X X.top t = true) (hh : sheightL X.top ≤ walkFuel X t) :
     (validate X o (validate X o t).tree).tree = (validate X o t).tree ∧
     (validate X o (validate X o t).tree).evs = [] :=
-  validate_idempotent2 X o hq1 hq2 hl hw hnp t hp hh
+  validate_idempotent2 X o hq1 hq2 hl hw t hnp hp hh
 
 /-- the example schema with choices: `choice o { case a { leaf x; choice i { default d; case d { leaf u { default "9"; } } case e { leaf v; } }
 leaf da { default "9"; } } case b { leaf w; } } container n { choice p { default q; case q { leaf r { default "9"; } } case s { leaf t; } } }` -/
@@ -217,10 +223,10 @@ def tc : List DNode := [.term 2 { new := true } [] [49], .term 10 {} [] [50],
 
 /-- non-vacuity: the hypotheses hold for the example; the first validation removes the old case (`w`), creates the defaults of case
 `a` (`u` of the nested default case, `da`) and removes the leftover default `r` — 4 changes —, the second one does nothing -/
-example : Xc.q.implicitInnerCase = false ∧ Xc.q.autodelDirectCase = false ∧ KidsLookupOk Xc ∧ CaseWf Xc ∧ NoNpContInCase Xc ∧
-    placedCL Xc Xc.top tc = true ∧ sheightL Xc.top ≤ walkFuel Xc tc ∧
+example : Xc.q.implicitInnerCase = false ∧ Xc.q.autodelDirectCase = false ∧ KidsLookupOk Xc ∧ CaseWf Xc ∧
+    (NoNpContInCase Xc ∨ (npInvL Xc.base tc ∧ newExplL tc)) ∧ placedCL Xc Xc.top tc = true ∧ sheightL Xc.top ≤ walkFuel Xc tc ∧
     (validate Xc {} tc).evs.map (·.node.sid) = [10, 5, 8, 14] ∧ (validate Xc {} (validate Xc {} tc).tree).evs.length = 0 := by
-  refine ⟨rfl, rfl, lookupOk_of_B Xc (by decide), caseWf_of_B Xc (by decide), noNpContInCase_of_B Xc (by decide), by decide, by decide,
+  refine ⟨rfl, rfl, lookupOk_of_B Xc (by decide), caseWf_of_B Xc (by decide), Or.inl (noNpContInCase_of_B Xc (by decide)), by decide, by decide,
     by decide, by decide⟩
 
 /-- schema of the witness F189: `choice ch1 { case a1 { container c { choice ch2 { case a2 { leaf y; } case b2 { container c2 { } } } } }
@@ -241,20 +247,37 @@ def X189 : SchemaX := { SchemaX.ofSchema S189 with q := Quirks.fixed }
 def t189 : List DNode := [.inner 2 {} [] [.term 5 {} [] [118], .inner 7 { new := true, dflt := true } [] []]]
 
 /-- **full strength, false (finding F189, a genuine defect of the C code; replay: `corpus/valid/F189_np_container_in_case.c`)**:
-without `NoNpContInCase` a validation need not leave a fixpoint, in the repaired variants too.  `lyd_validate_new` passes `c`
+without `NoNpContInCase` and without `newExplL` (the invariant `npInvL` alone does not help) a validation need not leave a fixpoint,
+in the repaired variants too.  `lyd_validate_new` passes `c`
 (explicit) on the top level; then, inside `c`, the new default container `c2` of case `b2` makes `lyd_validate_cases` remove the old
 case (`y`), `c2` itself goes as leftover of a case without explicit data, and `c` — now empty — is flagged default
 (`lyd_np_cont_dflt_set`): the result keeps an empty default container of the non-default, non-selected case `a1`, which the SECOND
 validation deletes as leftover case default (the tree changes, the change set is empty). -/
 theorem validate_idempotent_choice_fails :
     ¬ ∀ (X : SchemaX) (o : VOpts) (t : List DNode), X.q.implicitInnerCase = false → X.q.autodelDirectCase = false →
-      KidsLookupOk X → CaseWf X → placedCL X X.top t = true → sheightL X.top ≤ walkFuel X t →
+      KidsLookupOk X → CaseWf X → npInvL X.base t → placedCL X X.top t = true → sheightL X.top ≤ walkFuel X t →
       (validate X o (validate X o t).tree).tree = (validate X o t).tree ∧ (validate X o (validate X o t).tree).evs = [] := by
   intro h
-  have := (h X189 {} t189 rfl rfl (lookupOk_of_B X189 (by decide)) (caseWf_of_B X189 (by decide)) (by decide) (by decide)).1
+  have hinv : npInvL X189.base t189 := by
+    simp only [t189, npInvL, npInvN, allD, and_true, true_and, List.all_cons, List.all_nil, DNode.flags]
+    exact ⟨fun _ => by decide, fun _ => by decide⟩
+  have := (h X189 {} t189 rfl rfl (lookupOk_of_B X189 (by decide)) (caseWf_of_B X189 (by decide)) hinv (by decide) (by decide)).1
   have := congrArg List.length this
   revert this
   decide
+
+/-- non-vacuity of the second alternative (schema `S189`, where the non-presence container `c` IS a member of case `a1`): `c` with its
+explicit `y`, and a new explicit `w` of the other case `b1` — invariant and `newExplL` hold, the first validation removes `c`
+(recorded as the deletion of the node itself), the second one does nothing -/
+example :
+    let t : List DNode := [.inner 2 {} [] [.term 5 {} [] [118]], .term 9 { new := true } [] [119]]
+    ¬ NoNpContInCase X189 ∧ npInvL X189.base t ∧ newExplL t ∧ placedCL X189 X189.top t = true ∧ sheightL X189.top ≤ walkFuel X189 t ∧
+    (validate X189 {} t).evs.map (·.node.sid) = [2] ∧ (validate X189 {} (validate X189 {} t).tree).evs.length = 0 := by
+  refine ⟨?_, ?_, by simp [newExplL, newExplN], by decide, by decide, by decide, by decide⟩
+  · intro h
+    exact absurd (h.1 2 (by decide)) (by decide)
+  · simp only [npInvL, npInvN, allD, and_true, List.all_cons, List.all_nil, DNode.flags]
+    exact fun _ => by decide
 
 /-- schema of the witness F188: `choice o { case a { choice i { default d; case d { leaf u { default "9"; } } } leaf da { default "9"; } } }` -/
 def S188 : Schema := { modName := "m", nodes := [
@@ -275,10 +298,12 @@ dead case `a` and `lyd_new_implicit` creates it again — a non-empty change set
 idempotence — exhaustive runs of the model over small schemas find no counterexample —, it breaks `implicit_exact`.) -/
 theorem validate_idempotent_choice_F188_fails :
     ¬ ∀ (X : SchemaX) (o : VOpts) (t : List DNode), X.q.implicitInnerCase = false →
-      KidsLookupOk X → CaseWf X → NoNpContInCase X → placedCL X X.top t = true → sheightL X.top ≤ walkFuel X t →
+      KidsLookupOk X → CaseWf X → NoNpContInCase X → npInvL X.base t → newExplL t → placedCL X X.top t = true →
+      sheightL X.top ≤ walkFuel X t →
       (validate X o (validate X o t).tree).tree = (validate X o t).tree ∧ (validate X o (validate X o t).tree).evs = [] := by
   intro h
   have := (h X188 {} t188 rfl (lookupOk_of_B X188 (by decide)) (caseWf_of_B X188 (by decide)) (noNpContInCase_of_B X188 (by decide))
+    (by simp [t188, npInvL, npInvN]) (by simp [t188, newExplL, newExplN])
     (by decide) (by decide)).2
   have := congrArg List.length this
   revert this
@@ -485,11 +510,9 @@ example :
 
 /-! ## not proved
 
--- (`validate_idempotent` for schemas with `choice` / `case`: proved for the repaired variants under `NoNpContInCase`
--- (`validate_idempotent_choice`); false without it (F189, `validate_idempotent_choice_fails`) and for the defective variant F188.)
--- OPEN: `validate_idempotent_choice` when non-presence containers ARE case members, under a hypothesis on the data instead of the
--- schema (e.g. no new default-flagged node next to old explicit data of another case): the flag of such a container can change
--- after `lyd_validate_new` has passed it, which is exactly F189.
+-- (`validate_idempotent` for schemas with `choice` / `case`: proved for the repaired variants, for every tree under `NoNpContInCase`
+-- and for every schema on trees with `npInvL` and `newExplL` (`validate_idempotent_choice`); false without (F189,
+-- `validate_idempotent_choice_fails`) and for the defective variant F188 (`validate_idempotent_choice_F188_fails`).)
 -- OPEN: `valdiff_exact` (applying the returned diff to the input gives the output; the diff is empty iff nothing changed).
 -- The model composes `Valid.ValDiff.valDiff` with the `diff` component's `apply`; laws `valdiff-apply` / `valdiff-eq`
 -- evaluate it on the implementation; findings F177, F178, F179 are its counterexamples in the code.
